@@ -149,11 +149,21 @@ h("ki5b_comment", HDR, HP, ["C20", "C02"], kernel="KI5b", expect_s=40, timeout=9
 h("ki5b_hcrc", HDR, HP, ["C08", "C20", "C03", "C02"], kernel="KI5b", expect_s=15, timeout=600,
   functions=["State::dispatch (mode HCrc, Type)"],
   bounds="any running header CRC, 0..=3 input bytes, wrap in {2,6}, FHCRC set or clear")
-for _n, _tier in [(0, "thorough"), (1, "thorough"), (2, "quick"), (3, "thorough"), (5, "thorough"), (6, "quick")]:
-    h("ki5a_head_n%d" % _n, HDR, HP, ["C03", "C13", "C02"], kernel="KI5a", tier=_tier, expect_s=150, timeout=1500, weight=2, mem_gb=16,
-      unwindset=DISPATCH_US(4),
-      functions=["State::dispatch (modes Head, DictId, Dict, Flags, Type)"],
-      bounds="%d input bytes (concrete count, symbolic values), wrap in {1,2,3,5,6,7}, wbits in {0, 8..=15}, flush = Block" % _n, assumptions=NOCRC)
+# wrap is concrete per instance and at most the two header bytes are supplied: with a symbolic wrap (the first version of this
+# harness), or with more input, the decoder mode after Head is symbolic among the zlib chain, the gzip chain and Bad, and CBMC
+# needs 14..40+ GB.  What follows the header starts from its own concrete mode: ki5a_dictid_* (zlib + FDICT), ki5b_* (gzip).
+for _w in (1, 2, 3, 5, 6, 7):
+    for _n in (0, 1, 2, 3, 5, 6):
+        if _n > 2:
+            continue  # what follows the two header bytes starts from its own mode: ki5a_dictid_* (zlib), ki5b_* (gzip)
+        h("ki5a_head_w%d_n%d" % (_w, _n), HDR, HP, ["C03", "C13", "C02"] if _w & 1 else ["C03", "C02"], kernel="KI5a", expect_s=250 if _w in (3, 7) else 30, timeout=1800, weight=3 if _w in (3, 7) else 1,
+          mem_gb=28 if _w in (3, 7) else 12, rss_gb=14 if _w in (3, 7) else 2, unwindset=DISPATCH_US(4),
+          functions=["State::dispatch (modes Head, DictId, Dict, Flags, Type)"],
+          bounds="%d input bytes (concrete count, symbolic values), wrap = %d (concrete), wbits in {0, 8..=15}, flush = Block" % (_n, _w), assumptions=NOCRC)
+for _n, _nm in ((3, "n3"), (4, "n4"), (4, "n4_have")):
+    h("ki5a_dictid_" + _nm, HDR, HP, ["C13", "C03", "C04"], kernel="KI5a", expect_s=30, timeout=600, unwindset=DISPATCH_US(4),
+      functions=["State::dispatch (modes DictId, Dict, Type)"],
+      bounds="%d symbolic input bytes, wrap 1 or 5, HAVE_DICT %s, any running checksum, flush = Block" % (_n, "set" if "have" in _nm else "clear"), assumptions=NOCRC)
 h("ki5a_set_dictionary", HDR, HP, ["C13", "C16", "C02"], kernel="KI5a", expect_s=120, timeout=1200, weight=2,
   functions=["inflate::set_dictionary", "adler32::adler32", "Window::extend", "inflate::get_dictionary"],
   bounds="dictionary <= 6 symbolic bytes, W = 4, wrap in {0,1,5}, Dict or non-Dict mode, any demanded id")
@@ -167,7 +177,10 @@ STEP_ASSUME = ["inflate_table stubbed by assume(false) (dynamic blocks outside t
                "block-layer / header / trailer harnesses: State::len_and_friends -> contract stub 'suspends at once' (the symbol decoder is KI5d's subject)"]
 for _nb, _ni, _tier in [(0, 0, "thorough"), (1, 0, "thorough"), (2, 0, "quick"), (3, 0, "quick"), (4, 0, "thorough"), (5, 0, "thorough"),
                         (6, 0, "thorough"), (7, 0, "quick"), (0, 1, "quick"), (1, 1, "thorough")]:
-    h("ki5c_typedo_b%d_i%d" % (_nb, _ni), BLK, BP, ["C03", "C02", "C04"], kernel="KI5c", tier=_tier, expect_s=120, timeout=1200, weight=2, mem_gb=16,
+    # the instances that pull a byte from the input peak at ~16 GB (measured; 460 s): they get a higher cap, a memory reservation in
+    # the scheduler, and run in the thorough tier only
+    h("ki5c_typedo_b%d_i%d" % (_nb, _ni), BLK, BP, ["C03", "C02", "C04"], kernel="KI5c", tier=_tier, expect_s=500 if _ni else 120, timeout=2400 if _ni else 1200,
+      weight=4 if _ni else 2, mem_gb=30 if _ni else 16, rss_gb=20 if _ni else 4,
       unwindset=DISPATCH_US(4),
       functions=["State::dispatch (modes TypeDo, Stored, Len_, Len, Table, Check, Length, Done)"],
       bounds="%d bits in the register + %d input byte(s) (concrete counts, symbolic values), any flush mode, last-block flag set or clear" % (_nb, _ni),
@@ -558,7 +571,7 @@ QUICK = {
     "C02": ["ki1_bitreader_refill_model", "ki2_copy_match_twin_small", "ki2_extend_from_window_twin", "ki3_window_extend_ring",
             "ki5b_extra", "ki5b_name_entry_length", "ki5b_comment_entry_length", "ki5b_name", "ki5c_stored", "ki5d_len_step", "ki6_fast_loop_room", "ki7_inflate_copyblock",
             "kb1_back_lit1_d16", "ki5c_lenlens_order"],
-    "C03": ["ki5c_codelens_16_exact", "ki5c_codelens_17_exact", "ki5c_codelens_18_exact", "ki5c_codelens_18_over", "ki5d_match_guard_dispatch", "ki5d_match_guard_friends", "ki5a_head_n2", "ki5a_head_n6", "ki5c_typedo_b3_i0", "ki5c_typedo_b0_i1", "ki5c_stored", "ki5c_table",
+    "C03": ["ki5c_codelens_16_exact", "ki5c_codelens_17_exact", "ki5c_codelens_18_exact", "ki5c_codelens_18_over", "ki5d_match_guard_dispatch", "ki5d_match_guard_friends", "ki5a_head_w1_n2", "ki5a_head_w3_n2", "ki5a_head_w2_n2", "ki5a_dictid_n4", "ki5c_typedo_b3_i0", "ki5c_typedo_b7_i0", "ki5c_stored", "ki5c_table",
             "ki5c_lenlens_order", "ki5d_len_step", "ki5d_dist_step_friends", "ki5d_fixed_tables_are_rfc", "ki5e_check_zlib",
             "ki5e_length_gzip", "ki5b_hcrc"],
     "C04": ["ki1_bitreader_split", "ki5c_copyblock_resume", "ki5c_stored_trees", "ki5d_match_guard_dispatch", "ki5c_codelens_17_suspend", "ki5c_lenlens_order", "ki5b_extra", "ki5d_dist_step_friends",
@@ -576,7 +589,7 @@ QUICK = {
     "C10": ["ki2_copy_match_twin_small", "ki2_extend_from_window_twin", "ki3_window_extend_ring", "kd10_reset_equals_fresh",
             "ki8_reset_equals_fresh"],
     "C11": ["kd7_starved_flush_is_completed_by_the_next_call", "kd7_zlib_wrapper", "kd8_quick_sync_n3", "kd1_emitters_one_step"],
-    "C13": ["ki5a_head_n6", "ki5a_set_dictionary", "ki3_get_dictionary_order", "kd7_zlib_wrapper", "kd10_set_dictionary_protocol"],
+    "C13": ["ki5a_head_w1_n2", "ki5a_head_w5_n2", "ki5a_dictid_n3", "ki5a_dictid_n4", "ki5a_dictid_n4_have", "ki5a_set_dictionary", "ki3_get_dictionary_order", "kd7_zlib_wrapper", "kd10_set_dictionary_protocol"],
     "C14": ["kd10_reset_equals_fresh", "ki8_reset_equals_fresh", "ka2_deflate_copy_alloc_failure", "kd10c_pending_clone_to",
             "kd10c_symbuf_clone_to", "ki8c_window_clone_to", "kd7_gzip_start_stale_gzindex"],
     "C15": ["ki7_inflate_copyblock", "ki7_inflate_terminal", "ki5c_copyblock_resume", "ki1_bitreader_refill_model", "ki8_sync",
